@@ -1798,3 +1798,73 @@ func ruleMapAliasMutated(c *Ctx, rule string, pkgs []*packages.Package) {
 	}
 	c.Ob(rule, "functions-scanned", token.NoPos, n == 0, fns > 0, "%d functions scanned, %d handed-in maps kept and written into", fns, n)
 }
+
+// ---- C12 (after round-6 seed C12-p) --------------------------------------------------------------------------------
+
+// c12ImportAfterSurvival (IMPORT-AFTER-SURVIVAL): the closure records "file A needs file B" when an element of B that A
+// refers to is kept. An element can still turn out excluded while it is being added (an extension whose extendee or
+// own type is excluded); the import must not have been recorded by then, or the filtered A keeps an import of a file
+// that is gone. In the function that adds an element, once the import has been recorded no path leads on to a store of
+// the `excluded` mode.
+func c12ImportAfterSurvival(c *Ctx, pk *packages.Package) {
+	const rule = "IMPORT-AFTER-SURVIVAL"
+	c.Rule(rule, "an import is recorded only when the element it is for can no longer turn out excluded", 1)
+	p := c.P
+	exc, _ := pk.Types.Scope().Lookup("inclusionModeExcluded").(*types.Const)
+	if exc == nil {
+		c.Fail(rule, "anchor", token.NoPos, "inclusionModeExcluded not found")
+		return
+	}
+	n := 0
+	for _, sf := range p.SSAFuncsOf([]*packages.Package{pk}) {
+		var excludes []*ssa.BasicBlock
+		for _, b := range sf.Blocks {
+			for _, ins := range b.Instrs {
+				if mu, ok := ins.(*ssa.MapUpdate); ok {
+					if cst, ok := mu.Value.(*ssa.Const); ok && cst.Value != nil && cst.Value.ExactString() == exc.Val().ExactString() && strings.HasSuffix(namedPath(cst.Type()), "closureInclusionMode") {
+						excludes = append(excludes, b)
+					}
+				}
+			}
+		}
+		k := 0
+		for _, call := range callsIn(sf) {
+			if o := staticCalleeObj(call.Call); o == nil || o.Name() != "addImport" {
+				continue
+			}
+			if len(excludes) == 0 {
+				continue
+			}
+			n++
+			k++
+			later := false
+			for _, eb := range excludes {
+				if eb == call.Instr.Block() {
+					// same block: after the call?
+					seenCall := false
+					for _, ins2 := range eb.Instrs {
+						if ins2 == call.Instr {
+							seenCall = true
+							continue
+						}
+						if mu, ok := ins2.(*ssa.MapUpdate); ok && seenCall {
+							if cst, ok := mu.Value.(*ssa.Const); ok && cst.Value != nil && cst.Value.ExactString() == exc.Val().ExactString() {
+								later = true
+							}
+						}
+					}
+					continue
+				}
+				for _, s := range call.Instr.Block().Succs {
+					if blockReaches(s, eb) {
+						later = true
+					}
+				}
+			}
+			c.Ob(rule, fmt.Sprintf("%s/addImport#%d", ssaFuncName(sf), k), call.Pos(), !later, true, "no store of the excluded mode is reachable after this import was recorded: %v", !later)
+		}
+	}
+	if n == 0 {
+		c.Fail(rule, "anchor", token.NoPos, "no function recording imports and excluding elements found")
+	}
+}
